@@ -3,6 +3,7 @@ from coqrun import ni, tx
 from gen import pyref, txgen
 from gen.util import SECP_N, lib_vs_model, rbytes, short
 
+DRIVERS = ['C15']
 NEEDS = dict(cli=True, harness=True, shim=False, release=False)
 RULE = ("signatures: scalars r,s from {1, 2, 2^k, n-1, random of every byte width} x parity, printed and parsed back with and "
         "without 0x and in upper case; real signatures from random keys/digests; malformed text: every length 0..140, single "
